@@ -21,6 +21,7 @@
 package compiler
 
 import (
+	"github.com/gontainer/gontainer-helpers/v3/grouperror"
 	"github.com/gontainer/gontainer/internal/pkg/input"
 	"github.com/gontainer/gontainer/internal/pkg/output"
 )
@@ -38,10 +39,11 @@ func New(steps ...Step) *Compiler {
 }
 
 func (c Compiler) Compile(i input.Input) (o output.Output, _ error) {
+	// all steps are executed, so independent errors (e.g. an invalid name and a malformed argument)
+	// are reported in a single run
+	errs := make([]error, 0, len(c.steps))
 	for _, s := range c.steps {
-		if err := s.Process(i, &o); err != nil {
-			return o, err
-		}
+		errs = append(errs, s.Process(i, &o))
 	}
-	return o, nil
+	return o, grouperror.Join(errs...)
 }
